@@ -156,6 +156,10 @@ def duplicate(ir, m, how):
 PREFIXES = {"assigned": (), "solved": (("steady",), ("solve",))}
 
 
+class DuplicateFailed(Exception):
+    """copy / pickle / dill / portable round trip raised: the duplicate does not exist, so it cannot behave identically"""
+
+
 def run_history(ir, spec, hist, lifted=True):
     """
     hist = dict(prefix=, how=, ops=[(target, op), ...]).  Returns the four models (M, C, FM, FC) and their logs.
@@ -165,7 +169,10 @@ def run_history(ir, spec, hist, lifted=True):
     M = fresh(ir, spec)
     for op in prefix:
         apply_op(M, spec, op, logs["M"])
-    C = duplicate(ir, M, hist["how"])
+    try:
+        C = duplicate(ir, M, hist["how"])
+    except Exception as exc:
+        raise DuplicateFailed(f"duplicating the model by {hist['how']} raises {type(exc).__name__}: {str(exc)[:160]}")
     logs["C"] = list(logs["M"])
     FM = fresh(ir, spec)
     for op in prefix:
@@ -444,6 +451,8 @@ def check_history(args):
                 if status != "ok":
                     break
         res.update(status=status, what=what, nontrivial=nontrivial)
+    except DuplicateFailed as exc:
+        res.update(status="sat", what=str(exc))
     except S.SymbolicBranchError as exc:
         res.update(status="unknown", what=f"symbolic branch: {exc}")
     except Exception as exc:
@@ -671,7 +680,10 @@ def seq_observe(ir, m, reg, lifted=True):
 def seq_run_history(ir, tpl, hist):
     logs = {k: [] for k in ("M", "C", "FM", "FC")}
     M = seq_fresh(ir, tpl)
-    C = seq_duplicate(M, hist["how"])
+    try:
+        C = seq_duplicate(M, hist["how"])
+    except Exception as exc:
+        raise DuplicateFailed(f"duplicating the Sequential model by {hist['how']} raises {type(exc).__name__}: {str(exc)[:160]}")
     FM, FC = seq_fresh(ir, tpl), seq_fresh(ir, tpl)
     for target, op in hist["ops"]:
         op = tuple(op)
@@ -724,6 +736,8 @@ def check_seq_history(args):
                 if status != "ok":
                     break
         res.update(status=status, what=what, nontrivial=nontrivial)
+    except DuplicateFailed as exc:
+        res.update(status="sat", what=str(exc))
     except S.SymbolicBranchError as exc:
         res.update(status="unknown", what=f"symbolic branch: {exc}")
     except Exception as exc:
@@ -908,7 +922,10 @@ def _seq_replay(ir, case):
     if case["kind"] == "seq_history":
         hist = case["hist"]
         hist["ops"] = [(t, tuple(op)) for t, op in hist["ops"]]
-        models, logs = seq_run_history(ir, tpl, hist)
+        try:
+            models, logs = seq_run_history(ir, tpl, hist)
+        except DuplicateFailed as exc:
+            return True, str(exc)
         for side, ref in (("M", "FM"), ("C", "FC")):
             if logs[side] != logs[ref]:
                 return True, f"{side}: operation outcomes {logs[side]} vs freshly built model {logs[ref]}"
@@ -943,7 +960,10 @@ def replay(case):
     if case["kind"] == "history":
         hist = case["hist"]
         hist["ops"] = [(t, tuple(op)) for t, op in hist["ops"]]
-        models, logs = run_history(ir, spec, hist)
+        try:
+            models, logs = run_history(ir, spec, hist)
+        except DuplicateFailed as exc:
+            return True, str(exc)
         for side, ref in (("M", "FM"), ("C", "FC")):
             if logs[side] != logs[ref]:
                 return True, f"{side}: operation outcomes {logs[side]} vs freshly built model {logs[ref]}"
